@@ -293,6 +293,10 @@ package protocol
 //@   ensures [C03] err == nil ==> ghost(sqrem) >= 1
 //@   ensures [C13 C01] err == nil && len(b) > 0 ==> s.nextSend.v != old(s.nextSend.v) || len(b) == 0
 //@   ensures s.nextRecv.v == old(s.nextRecv.v)
+//@   // all fragments of a chunk take their sequence numbers and enter the send queue inside one
+//@   // critical section of the session's output lock (C13: consecutive, never interleaved with
+//@   // another allocation)
+//@   assert_at "s.nextSend.Add(1)": [C13] ghost(held_Session_oLock) == mathint(s)
 //@   loop 1:
 //@     invariant s.nextSend.v == old(s.nextSend.v) && s.nextRecv.v == old(s.nextRecv.v) && ghost(sq) == s.sendQueue
 //@     invariant nFragment >= 1 && fragmentSize >= 1 && fragmentSize <= 65535
@@ -300,6 +304,7 @@ package protocol
 //@     invariant -1 <= i && i <= nFragment - 1 && nFragment >= 1 && fragmentSize >= 1 && fragmentSize <= 65535
 //@     invariant ghost(sqrem) >= 1 + mathint(i) + 1 && ghost(sq) == s.sendQueue && s.nextRecv.v == old(s.nextRecv.v)
 //@     invariant mathint(s.nextSend.v) == (mathint(old(s.nextSend.v)) + mathint(nFragment) - 1 - mathint(i)) % 4294967296
+//@     invariant ghost(held_Session_oLock) == mathint(s)
 //@   loop 3:
 //@     invariant ghost(sqrem) >= 1 && s.nextRecv.v == old(s.nextRecv.v)
 //@     invariant mathint(s.nextSend.v) == (mathint(old(s.nextSend.v)) + mathint(nFragment)) % 4294967296
@@ -316,6 +321,8 @@ package protocol
 //@   // what enters the send queue never shares memory with the caller's buffer: the caller may
 //@   // reuse b as soon as Write returns, and a retransmission must carry the same bytes (C13, C01)
 //@   assert_call segmentTree.Insert: [C13 C01] len(arg0.payload) == 0 || baseof(arg0.payload) != baseof(b)
+//@   // the open request takes its sequence number under the session's output lock (C13)
+//@   assert_at "s.nextSend.Add(1)": [C13] ghost(held_Session_oLock) == mathint(s)
 //@   ensures [C19] !old(s.isClient) && old(s.downloadBytes) != nil ==> ghost(added) == old(ghost(added)) + mathint(n)
 //@   ensures [C19] !old(s.isClient) && old(s.downloadBytes) == nil ==> ghost(added) == old(ghost(added))
 //@   loop 1:
@@ -329,21 +336,23 @@ package protocol
 //@ // the request's sequence number is the next expected one. Ordered transport gives this on
 //@ // TCP; on UDP the request is acted on as soon as it is dispatched (recorded finding D8).
 //@ func (s *Session) inputClose(seg *segment) (err error)
-//@   property C03
+//@   property C03 C13
 //@   mode int
 //@   partial
 //@   posts_only
 //@   noframe
 //@   may_panic
 //@   requires s != nil && wfSegMeta(seg)
-//@   assert_call Session.Close: old(s.transportProtocol) == common.StreamTransport || old(protoOf(seg)) != 4 || old(payload(seg.metadata, *sessionStruct).seq) == old(s.nextRecv.v)
+//@   assert_call Session.Close: [C03] old(s.transportProtocol) == common.StreamTransport || old(protoOf(seg)) != 4 || old(payload(seg.metadata, *sessionStruct).seq) == old(s.nextRecv.v)
+//@   // the close response takes its sequence number and is written under the output lock (C13)
+//@   assert_at "s.nextSend.Add(1)": [C13] ghost(held_Session_oLock) == mathint(s)
 //@
 //@ // Graceful close (C03): the close request of a graceful Close is written to the underlay
 //@ // directly only after it was offered to the send queue - behind whatever data is still
 //@ // queued - whatever the session's state; callers assume nothing about the effects of this
 //@ // function (noframe). The bounded wait and the goroutine hand-over are schedule matters.
 //@ func (s *Session) closeWithError(err error) (r error)
-//@   property C03
+//@   property C03 C13
 //@   mode int
 //@   partial
 //@   posts_only
@@ -354,6 +363,28 @@ package protocol
 //@   assert_call Session.output: err != nil || ghost(inserted) == 1
 //@   loop 1:
 //@     invariant ghost(inserted) == 1 && gracefulClose
+//@   // the close request takes its sequence number and is written directly only under the
+//@   // session's output lock - the lock under which every other sequence number is allocated
+//@   // (C13) and under which the output loop drains the send queue (C03)
+//@   assert_at "closeRequestSeq := s.nextSend.Load()": [C13] ghost(held_Session_oLock) == mathint(s)
+//@   assert_at "s.nextSend.Add(1)": [C13] ghost(held_Session_oLock) == mathint(s) && closeRequestSeq == s.nextSend.v
+//@   assert_call Session.output: [C03] ghost(held_Session_oLock) == mathint(s)
+//@
+//@ // The TCP output loop drains the send queue and writes each segment while holding the
+//@ // session's output lock, from the first segment to the empty queue: nothing that takes the
+//@ // lock (Close's direct write of the close request) can overtake data still queued (C03).
+//@ func (s *Session) runOutputOnceStream()
+//@   property C03
+//@   mode int
+//@   partial
+//@   posts_only
+//@   noframe
+//@   may_panic
+//@   requires s != nil
+//@   assert_call Session.output: [C03] ghost(held_Session_oLock) == mathint(s)
+//@   assert_call segmentTree.DeleteMin: [C03] ghost(held_Session_oLock) == mathint(s)
+//@   loop 1:
+//@     invariant ghost(held_Session_oLock) == mathint(s)
 //@
 //@ // Quota (C19): a session is admitted (ok without error) only after every quota of the
 //@ // user's policy has been evaluated against both of the user's counters; it is refused only
@@ -467,24 +498,22 @@ package protocol
 //@ // extended or re-padded copy of a genuine datagram is refused - and a payload is
 //@ // returned only from a successful DecryptWithNonce of exactly the announced bytes.
 //@ func (u *PacketUnderlay) parseSessionSegment(ss *sessionStruct, nonce []byte, remaining []byte, blockCipher cipher.BlockCipher) (seg *segment, err error)
-//@   property C04 C05
+//@   property C04 C05 C10
 //@   mode int
 //@   noframe
-//@   may_panic
 //@   preserves ghost(wr), ghost(dsent), PacketUnderlay.baseUnderlay.isClient, PacketUnderlay.block, sessionStruct.payloadLen, sessionStruct.suffixLen
-//@   requires u != nil && ss != nil && (u.isClient ==> u.block != nil)
+//@   requires u != nil && ss != nil && (u.isClient ==> u.block != nil) && (!u.isClient ==> blockCipher != nil)
 //@   ensures err == nil && ss.payloadLen > 0 ==> len(remaining) == int(ss.payloadLen) + 16 + int(ss.suffixLen)
 //@   ensures err == nil && ss.payloadLen == 0 ==> len(remaining) == int(ss.suffixLen)
 //@   ensures err == nil ==> seg != nil && seg.block == nil && typeof(seg.metadata) == typeid(*sessionStruct) && payload(seg.metadata, *sessionStruct) == ss
 //@   ensures err != nil ==> seg == nil
 //@
 //@ func (u *PacketUnderlay) parseDataAckSegment(das *dataAckStruct, nonce []byte, remaining []byte, blockCipher cipher.BlockCipher) (seg *segment, err error)
-//@   property C04 C05
+//@   property C04 C05 C10
 //@   mode int
 //@   noframe
-//@   may_panic
 //@   preserves ghost(wr), ghost(dsent), PacketUnderlay.baseUnderlay.isClient, PacketUnderlay.block, dataAckStruct.payloadLen, dataAckStruct.suffixLen, dataAckStruct.prefixLen
-//@   requires u != nil && das != nil && (u.isClient ==> u.block != nil)
+//@   requires u != nil && das != nil && (u.isClient ==> u.block != nil) && (!u.isClient ==> blockCipher != nil)
 //@   ensures err == nil && das.payloadLen > 0 ==> len(remaining) == int(das.prefixLen) + int(das.payloadLen) + 16 + int(das.suffixLen)
 //@   ensures err == nil && das.payloadLen == 0 ==> len(remaining) == int(das.prefixLen) + int(das.suffixLen)
 //@   ensures err == nil ==> seg != nil && seg.block == nil && typeof(seg.metadata) == typeid(*dataAckStruct) && payload(seg.metadata, *dataAckStruct) == das
